@@ -208,8 +208,8 @@ func (e *TOCEntry) addChild(baseName string, child *TOCEntry) {
 	if e.children == nil {
 		e.children = make(map[string]*TOCEntry)
 	}
-	if child.Type == "dir" {
-		e.NumLink++ // Entry ".." in the subdirectory links to this directory
+	if old, ok := e.children[baseName]; child.Type == "dir" && !(ok && old.Type == "dir") {
+		e.NumLink++ // Entry ".." in the subdirectory links to this directory (once per name)
 	}
 	e.children[baseName] = child
 }
